@@ -216,6 +216,29 @@ def index_args(spec, run):
 rows_driver(P + "slice[rows]", index_args, lambda d, r: d.slice(r), lambda d, r: [i % d.nrow for i in r], kinds=("int", "float"))
 rows_driver(P + "slice_off[rows]", index_args, lambda d, r: d.slice_off(r),
             lambda d, r: [i for i in range(d.nrow) if i not in [x % d.nrow for x in r]], kinds=("int", "float"))
+
+
+@driver(P + "slice[rows: longer index vectors with repeats and disorder]")
+def slice_long(run):
+    """index vectors of 3-4 positions on a 4-row frame: repeats, disorder, negative positions (a shortcut valid for strictly
+    increasing vectors only - e.g. 'last - first == len - 1 means contiguous' - shows from three positions on)"""
+    run.bound = "one 4-row frame (int + str column) x all index vectors of 3 positions over -4..3 and of 4 positions over 0..3; slice and slice_off"
+    spec = [("c0", "int", enc([0, -1, -2, 2 ** 53])), ("c1", "str", enc(["", "a", "b" * 50, "a"]))]
+    gen = [(list(c),) for c in itertools.product(range(-4, 4), repeat=3)] + [(list(c),) for c in itertools.product(range(4), repeat=4)]
+    for (r,) in run.inputs(gen):
+        df = build(spec)
+        before = snapshot(df)
+        try:
+            got = df.slice(r)
+            ok = frame_rows_are(got, df, [i % 4 for i in r]) and snapshot(df) == before
+            got2 = df.slice_off(r)
+            ok = ok and frame_rows_are(got2, df, [i for i in range(4) if i not in [x % 4 for x in r]]) and snapshot(df) == before
+            obs = {c: list(got[c]) for c in got.colnames}
+        except Exception as e:
+            ok, obs = False, f"raised {type(e).__name__}: {e}"
+        run.check([r], ok, expected=f"rows {[i % 4 for i in r]} (slice) / the others in order (slice_off)", got=obs, clause="slice / slice_off with a longer index vector")
+
+
 NS = [0, 1, 2, 5]
 rows_driver(P + "head", lambda s, run: [(n,) for n in NS], lambda d, n: d.head(n), lambda d, n: list(range(min(n, d.nrow))))
 rows_driver(P + "tail", lambda s, run: [(n,) for n in NS], lambda d, n: d.tail(n),
@@ -642,6 +665,7 @@ def join_driver(name, kindj, renamed=False):
 join_driver(P + "left_join[one same-named key]", "left")
 join_driver(P + "left_join[one key named differently on the two sides]", "left", renamed=True)
 join_driver(P + "inner_join[one same-named key]", "inner")
+join_driver(P + "inner_join[key named differently]", "inner", renamed=True)
 join_driver(P + "semi_join[one same-named key]", "semi")
 join_driver(P + "anti_join[one same-named key]", "anti")
 join_driver(P + "semi_join[key named differently]", "semi", renamed=True)
@@ -674,7 +698,8 @@ def full_join_mixed_keys(run):
 
 # ---- C03: sort ---------------------------------------------------------------------------------------
 SORT_POOLS = {"int": [0, 1, -2 ** 63], "float": [0.5, NAN, -0.5], "str": ["", "a", "b" * 50, "\U0001F600"], "bool": [True, False],
-              "date": POOLS["date"] + [np.datetime64("2021-05-05")], "obj": [None, 9, 10], "fix": ["", "a", "b"]}
+              "date": POOLS["date"] + [np.datetime64("2021-05-05")], "obj": [None, 9, 10], "fix": ["", "a", "b"],
+              "td": [np.timedelta64(1, "D"), np.timedelta64("NaT", "D"), np.timedelta64(-2, "D")], "u8": [0, 1, 255]}
 
 
 def sort_frames(maxrow):
@@ -848,6 +873,7 @@ def join_two_keys(run):
             inner = a.inner_join(b, "k", ("h", "h2"))
             keep = [i for i in range(a.nrow) if m[i] is not None]
             ok = ok and list(inner.x) == [a.x[i] for i in keep] and list(inner.y) == [b.y[m[i]] for i in keep]
+            ok = ok and inner.colnames == left.colnames        # the matched subset of the left_join result: same columns
             ok = ok and frame_rows_are(a.semi_join(b, "k", ("h", "h2")), a, keep)
             ok = ok and frame_rows_are(a.anti_join(b, "k", ("h", "h2")), a, [i for i in range(a.nrow) if m[i] is None])
             ok = ok and snapshot(a) == sa and snapshot(b) == sb
